@@ -32,7 +32,8 @@ Violation keys (stable):
   invisible:obs:abs-term-note | invisible:obs:xml-list | phantom:<what> | count-mismatch:<which count> |
   abs-term-rule:<kind>:<excluded-below|kept-above> | abs-term-value:<kind> | reason:point:<code>:<expected> |
   unexpected-exclusion:point:<code> | missing-exclusion:point:<defects> | exclusion-set:observations |
-  deletion:<field> | further-exclusion-after-deletion | algorithm-dependent-exclusion:<defect kinds> |
+  deletion:<field> | further-exclusion-after-deletion | algorithm-dependent-exclusion:<defect kinds> (all
+  algorithms adjust, different items excluded) | algorithm-dependent-outcome:<defect kinds> (some refuse) |
   not-adjusted:<defect kinds>:<outcome> | gama-local:<sanitizer key>.
 A deviation from the decision rule that a *known* defect explains is named after it, so that any other deviation
 keeps the plain key:  abs-term-rule:homogenized-rhs:<kind>:<side> / abs-term-value:homogenized-rhs:<kind>
@@ -1565,7 +1566,11 @@ def run(tier, seed, only=None):
                     kinds = sorted({defect_of(info, pid) for pid, _ in disputed})
                     if kinds:
                         dk = "+".join(kinds)
-                ck.violation("algorithm-dependent-exclusion:%s" % dk,
+                # some algorithms refuse / fail while others adjust: its own key (a different matter than adjusted
+                # results that differ in what was excluded)
+                fam = "algorithm-dependent-outcome" if any(isinstance(x, str) for x in sig) else \
+                    "algorithm-dependent-exclusion"
+                ck.violation("%s:%s" % (fam, dk),
                              "the algorithms exclude different items for the same input (%s): %s" % (
                                  "+".join(sorted(set(info["defects"]))) or "blunders only",
                                  {",".join(a): (s if isinstance(s, str) else "points %s, %d passive observations %s" % (
